@@ -3,7 +3,7 @@ History + model: every cook() output is parsed independently; components are mat
 new names = the recipe evaluated on the model box (user recipes bit-equal; built-ins against an
 independent cell-by-cell Cantera evaluation), kept names bit-identical to the input, level
 header min/max rows = extrema of the written data; output must validate."""
-import os, random
+import os, shutil, random
 import numpy as np
 from .. import common, gen, refparse, refmodel, workload, pools
 
@@ -52,6 +52,8 @@ def cases(tier, seed):
         g = dict(seed=rng.randrange(10 ** 9), ndims=3, nlevels=1 + i % 2, bf=2, base_blocks=(2, 3),
                  maxsz=4, payload="thermo")
         cs.append({"kind": "thermo", "gen": g, "sel_seed": seed * 41 + i})
+    if tier == "thorough":      # an OUTPUT binary file larger than 2 GiB (a many-component recipe): 2 GB written, ~30 s
+        cs.append({"kind": "huge_output", "sel_seed": seed * 43})
     return cs
 
 
@@ -198,7 +200,76 @@ def judge(out, m, names, kind, kept, P, sel):
     return probs
 
 
+def run_huge_output(case, work, rec):
+    """17 boxes in one binary file, a 255-component recipe with one kept field: the cooked file is larger
+    than 2 GiB and its last boxes start beyond byte 2**31 - every box must be found at the offset the
+    output level header records, with its kept field bit-identical and its last component = recipe"""
+    from amr_kitchen.chef import Chef
+    nprng = np.random.default_rng(case["sel_seed"])
+    B = gen.Box
+    m = gen.gen_model(seed=case["sel_seed"], ndims=3, nlevels=1, names=["phi", "psi"], base=[64, 64, 258], bf=2,
+                      maxsz=258, aniso=False, payload="random", nfiles=1)
+    m.boxes[0] = [B((0, 0, 16 * k), (63, 63, 16 * k + 15)) for k in range(16)] + [B((0, 0, 256), (63, 63, 257))]
+    m.data[0] = [np.asfortranarray(nprng.standard_normal(b.shape + (2,))) for b in m.boxes[0]]
+    m.layout[0] = {"file_of": [0] * 17, "write_order": list(range(17))}
+    path = os.path.join(work, "plt_in")
+    gen.write_plotfile(m, path)
+    NC = 255
+
+    def recipe(fi, arr):
+        """c0 c1 c2 c3 c4 c5 c6 c7 c8 c9 c10 c11 c12 c13 c14 c15 c16 c17 c18 c19 c20 c21 c22 c23 c24 c25 c26 c27 c28 c29 c30 c31 c32 c33 c34 c35 c36 c37 c38 c39 c40 c41 c42 c43 c44 c45 c46 c47 c48 c49 c50 c51 c52 c53 c54 c55 c56 c57 c58 c59 c60 c61 c62 c63 c64 c65 c66 c67 c68 c69 c70 c71 c72 c73 c74 c75 c76 c77 c78 c79 c80 c81 c82 c83 c84 c85 c86 c87 c88 c89 c90 c91 c92 c93 c94 c95 c96 c97 c98 c99 c100 c101 c102 c103 c104 c105 c106 c107 c108 c109 c110 c111 c112 c113 c114 c115 c116 c117 c118 c119 c120 c121 c122 c123 c124 c125 c126 c127 c128 c129 c130 c131 c132 c133 c134 c135 c136 c137 c138 c139 c140 c141 c142 c143 c144 c145 c146 c147 c148 c149 c150 c151 c152 c153 c154 c155 c156 c157 c158 c159 c160 c161 c162 c163 c164 c165 c166 c167 c168 c169 c170 c171 c172 c173 c174 c175 c176 c177 c178 c179 c180 c181 c182 c183 c184 c185 c186 c187 c188 c189 c190 c191 c192 c193 c194 c195 c196 c197 c198 c199 c200 c201 c202 c203 c204 c205 c206 c207 c208 c209 c210 c211 c212 c213 c214 c215 c216 c217 c218 c219 c220 c221 c222 c223 c224 c225 c226 c227 c228 c229 c230 c231 c232 c233 c234 c235 c236 c237 c238 c239 c240 c241 c242 c243 c244 c245 c246 c247 c248 c249 c250 c251 c252 c253 c254"""
+        base = arr[..., fi["psi"]]
+        return np.stack([base + float(i) for i in range(NC)], axis=-1)
+    out = os.path.join(work, "cooked")
+    pools.CTL.reset(mode="inproc", seed=1)
+    key = ("huge_output",)
+    try:
+        Chef(plotfile=path, recipe=recipe, outfile=out, kept_fields="phi", serial=True).cook()
+    except Exception as e:
+        rec.violation(f"cooking raised {type(e).__name__}: 255-component recipe, output binary file larger than 2 GiB",
+                      key=key, witness={"exc": repr(e)[:300]})
+        return
+    rec.count("cooked"); rec.count("output_file_beyond_2GiB")
+    probs = []
+    big = 0
+    try:
+        lev = refparse.parse_cell_h(os.path.join(out, "Level_0", "Cell_H"), 3)
+    except Exception as e:       # e.g. a negative byte offset
+        rec.violation(f"cooked plotfile is not recipe(box) under the right names (the output level header does not parse: "
+                      f"{e}): output binary file larger than 2 GiB", key=key, witness={"exc": repr(e)[:300]})
+        return
+    for bi, ((lo, hi), (fn, off)) in enumerate(zip(lev["idx"], lev["fod"])):
+        b = m.boxes[0][bi]
+        if tuple(lo) != b.lo or tuple(hi) != b.hi:
+            probs.append(f"box {bi}: index range {lo}..{hi} != {b.lo}..{b.hi}"); break
+        fp = os.path.join(out, "Level_0", fn)
+        if off < 0 or off >= os.path.getsize(fp):
+            probs.append(f"box {bi}: recorded offset {off} lies outside {fn} ({os.path.getsize(fp)} bytes)"); break
+        big += off >= 2 ** 31
+        if bi in (0, 15, 16):
+            try:
+                hlo, hhi, nc, arr, _ = refparse.read_fab(fp, off)
+            except Exception as e:
+                probs.append(f"box {bi}: no FAB at the recorded offset {off} ({e})"); break
+            if tuple(hlo) != b.lo or nc != NC + 1:
+                probs.append(f"box {bi}: FAB at offset {off} names {hlo}..{hhi} with {nc} components"); break
+            if not refparse.biteq(arr[..., 0], m.data[0][bi][..., 0]):
+                probs.append(f"box {bi}: kept field differs from the input"); break
+            if not refparse.biteq(arr[..., NC], m.data[0][bi][..., 1] + float(NC - 1)):
+                probs.append(f"box {bi}: last recipe component is not recipe(box)"); break
+    if not big:
+        rec.undecided("no box of the cooked file starts beyond 2**31")
+    if probs:
+        rec.violation(f"cooked plotfile is not recipe(box) under the right names ({probs[0][:140]}): output binary file larger than 2 GiB",
+                      key=key, witness={"differences": probs})
+    else:
+        rec.ok(key, True)
+    shutil.rmtree(out, ignore_errors=True)
+
+
 def run_case(case, work, rec):
+    if case.get("kind") == "huge_output":
+        return run_huge_output(case, work, rec)
     from amr_kitchen.chef import Chef
     rng = random.Random(case["sel_seed"])
     g = dict(case["gen"])
